@@ -17,6 +17,7 @@ REF_CHARGE = {L: Fraction(1 if L in "KR" else (-1 if L in "DE" else 0)) for L in
 
 def check_charge_map(ck, prog, rule="PART-charge-map"):
     """C02-1 / C04 / C05: residue -> charge class built by the constructor"""
+    ck.attempt(check_len_invariant, ck, prog)
     cmap, f, loop = facts.charge_map(prog)
     construct = f.mod.relpath + ":" + f.qual
     for L in LETTERS:
@@ -62,3 +63,301 @@ def check_api(ck, prog, pairs, rule="BIND-api", allow_pre=()):
                            argmap=argmap, allow_pre=allow_pre)
         n += 1
     ck.count("api wrappers checked", n)
+
+
+# ---------------------------------------------------------------------------------------------- memo soundness
+ANCHORS = {
+    "C01": [(SP, "SequenceParameters.get_kappa"), (SP, "SequenceParameters.get_delta"), (SP, "SequenceParameters.get_deltaMax")],
+    "C02": [(SP, "SequenceParameters.get_delta")],
+    "C03": [(SP, "SequenceParameters.get_deltaMax")],
+    "C04": [(SP, "SequenceParameters." + n) for n in (
+        "get_countPos", "get_countNeg", "get_countNeut", "get_fraction_positive", "get_fraction_negative", "get_FCR", "get_NCPR",
+        "get_mean_net_charge", "get_fraction_expanding", "get_fraction_disorder_promoting", "get_amino_acid_fractions",
+        "get_mean_hydropathy", "get_uversky_hydropathy", "get_WW_hydropathy", "get_PPII_propensity", "get_molecular_weight")],
+    "C05": [(SP, "SequenceParameters." + n) for n in ("get_kappa", "get_delta", "get_deltaMax", "get_SCD", "get_Omega")],
+    "C06": [(SP, "SequenceParameters." + n) for n in ("get_Omega", "get_Omega_sequence", "get_kappa_X", "get_kappa")],
+    "C07": [(SP, "SequenceParameters.get_SCD")],
+    "C08": [(SP, "SequenceParameters.get_phasePlotRegion")],
+    "C09": [(SP, "SequenceParameters." + n) for n in ("get_FCR", "get_NCPR", "get_mean_net_charge", "get_fraction_expanding", "get_isoelectric_point")],
+    "C10": [(SP, "SequenceParameters." + n) for n in ("get_linear_NCPR", "get_linear_FCR", "get_linear_sigma", "get_linear_hydropathy",
+                                                      "get_linear_sequence_composition")],
+    "C11": [(SP, "SequenceParameters.get_linear_complexity")],
+    "C12": [(SP, "SequenceParameters.get_reduced_alphabet_sequence")],
+    "C13": [(SP, "SequenceParameters.__init__"), (SP, "SequenceParameters.get_sequence"), (SP, "SequenceParameters.get_length")],
+    "C14": [(SP, "SequenceParameters.__init__"), ("backend/seqfileparser.py", "SequenceFileParser.parseSeqFile")],
+    "C16": [(SP, "SequenceParameters." + n) for n in ("set_phosphosites", "clear_phosphosites", "get_phosphosites", "get_phosphosequence",
+                                                      "get_kappa_after_phosphorylation", "get_full_phosphostatus_kappa_distribution",
+                                                      "get_all_phosphorylatable_sites")],
+    "C17": [(SP, "SequenceParameters.get_shuffled_sequence")] + [(SEQ, "Sequence." + n) for n in (
+        "swapRes", "swapRandChargeRes", "full_shuffle", "permute_block_swap", "permute_cluster_charges")],
+    "C18": [("backend/wang_landau.py", "WangLandauMachine.run_normal_WL"), ("backend/wang_landau.py", "WangLandauMachine.__init__")],
+    "C20": [(SP, "SequenceParameters.get_HTMLColorString"), (SP, "SequenceParameters.set_HTMLColorResiduePalette")],
+}
+
+
+# call edges that are taken only when an optional argument is supplied: FCR/NCPR/FER/mean_net_charge reach charge_at_pH only
+# when a pH is given (the default is None), which only C09's entry points do
+CONDITIONAL_CALLEES = {SEQ + ":Sequence.charge_at_pH"}
+
+
+def closure(prog, E, anchors, allow_conditional=False):
+    conditional = CONDITIONAL_CALLEES
+    seen, todo = set(), []
+    for rel, qual in anchors:
+        if prog.has_fn(rel, qual):
+            k = prog.fn(rel, qual).key
+            seen.add(k)
+            todo.append(k)
+    while todo:
+        k = todo.pop()
+        for callee, _, _, _ in E.sum[k].calls:
+            if callee.key in conditional and not allow_conditional:
+                continue
+            if callee.key in E.sum and callee.key not in seen:
+                seen.add(callee.key)
+                todo.append(callee.key)
+    return seen
+
+
+_S = "backend/sequence.py:Sequence."
+_R = "backend/restable.py:ResTable."
+_CX = "backend/sequenceComplexity.py:SequenceComplexity."
+_COUNTS = [_S + n for n in ("countPos", "countNeg", "countNeut", "Fplus", "Fminus", "FCR", "NCPR")]
+_LOOKUP = [_R + n for n in ("lookUpCharge", "lookForRes", "lookUpHydropathy", "lookUpPPII", "__init__")]
+# the functions each property is anchored in (its mechanisms and their direct helpers).  MEMO-KEY findings are reported under a
+# property only for these - a stale cache elsewhere in the call graph is some other property's violation
+FUNCS = {
+    "C01": [_S + n for n in ("kappa", "delta", "deltaForm", "sigma", "deltaMax")],
+    "C02": [_S + n for n in ("sigma", "deltaForm", "delta", "__init__")] + _COUNTS + _LOOKUP[:2],
+    "C03": [_S + n for n in ("deltaMax", "__permutant_from_reduced_seq")],
+    "C04": _COUNTS + _LOOKUP + [_S + n for n in ("FER", "mean_net_charge", "meanHydropathy", "uverskyHydropathy", "meanWWHydropathy", "FPPII_chain",
+                                                  "molecular_weight", "amino_acid_fraction", "fraction_disorder_promoting", "__init__")],
+    "C05": [_S + n for n in ("__init__", "sigma", "deltaForm", "delta", "deltaMax", "sequence_charge_decoration", "kappa", "Omega")] + _LOOKUP[:2],
+    "C06": [_S + n for n in ("Omega", "Omega_seq", "kappa_X", "__parse_group")],
+    "C07": [_S + "sequence_charge_decoration"],
+    "C08": [_S + n for n in ("phasePlotRegion", "phasePlotAnnotation")] + _COUNTS,
+    "C09": [_S + n for n in ("charge_at_pH", "isoelectric_point", "FCR", "NCPR", "FER", "mean_net_charge")] + ["sequenceParameters.py:SequenceParameters.__verify_pH"],
+    "C10": [_S + n for n in ("linearDistOfNCPR", "linearDistOfFCR", "linearDistOfSigma", "linearDistOfHydropathy", "linearDenistyOfAAs", "linearCompositions",
+                             "__check_window_to_length", "__parse_group")],
+    "C11": [_CX + n for n in ("CWF", "LC", "LZW", "get_WF_complexity", "get_LC_complexity", "get_LZW_complexity", "get_indexed_complexity_vector", "reduce_alphabet")]
+           + [_S + n for n in ("get_linear_WF_complexity", "get_linear_LC_complexity", "get_linear_LZW_complexity", "__check_window_to_length")],
+    "C12": [_CX + "reduce_alphabet", _S + "get_reducedAlphabetSequence"],
+    "C13": [_S + "__init__", _S + "validateSequence", "sequenceParameters.py:SequenceParameters.__init__"],
+    "C14": ["backend/seqfileparser.py:SequenceFileParser." + n for n in ("parseSeqFile", "__validSeq", "__final_validation")]
+           + ["sequenceParameters.py:SequenceParameters.__init__", "sequencePermutants.py:SequencePermutants.__init__"],
+    "C16": [_S + n for n in ("setPhosPhoSites", "clear_phosphosites", "get_phosphosites", "get_phosphosequence", "kappa_at_maxPhos",
+                             "calculateKappaDistOfPhosphoStates", "calculateNumberDifferentPhosphoStates", "get_STY_residues")],
+    "C17": [_S + n for n in ("swapRes", "swapRandChargeRes", "full_shuffle", "permute_block_swap", "permute_cluster_charges", "__init__")]
+           + ["sequencePermutants.py:SequencePermutants.get_permutant"],
+    "C18": ["backend/wang_landau.py:WangLandauMachine." + n for n in ("run_normal_WL", "__run_flatcheck", "__init__", "getBinCenters", "getBinSize",
+                                                                       "indexInsideRelevantRegion", "run")],
+    "C20": [_S + "get_HTMLColorString", _S + "set_HTMLColorResiduePalette"],
+}
+
+
+def anchored_functions(prog, E, pid):
+    """FUNCS[pid] + the SequenceParameters wrappers that forward to them + private helpers they call directly"""
+    base = set(FUNCS.get(pid, []))
+    out = set(base)
+    for k in list(base):
+        s = E.sum.get(k)
+        if s is None:
+            continue
+        for callee, _, _, _ in s.calls:
+            if callee.cls == s.f.cls and callee.name.startswith("_") and not callee.name.startswith("__init") \
+                    and callee.key not in CONDITIONAL_CALLEES and not any(callee.key in v for p, v in FUNCS.items() if p != pid):
+                out.add(callee.key)
+    for key, s in E.sum.items():
+        if s.f.cls == "SequenceParameters":
+            if any(c.key in base for c, _, _, _ in s.calls):
+                out.add(key)
+    return out
+
+
+# inputs a property does not care about for one function: kappa / delta-max VALUE (C01, C05) does not depend on the residue string
+# (C03-DEP), only the permutant does, so a delta-max table that forgets self.seq is C03's and C15's violation, not theirs
+# (the flag only gates whether the permutant is built: C15 MEMO-M3 'flag-gates-only')
+IGNORE_INPUTS = {("C01", _S + "deltaMax"): {"self.seq", "param:returnSeqDeltaMax"}, ("C05", _S + "deltaMax"): {"self.seq", "param:returnSeqDeltaMax"}}
+
+
+def check_memos(ck, prog, pid=None, scope=None, E=None):
+    """MEMO-KEY: caches that survive a call, in the functions this property's entry points reach"""
+    from lcsa.eff import Effects
+    from lcsa import memo
+    E = E or Effects(prog)
+    pid = pid or ck.pid
+    if scope is None:
+        scope = anchored_functions(prog, E, pid)
+    results = memo.analyse(prog, E)
+    n = 0
+    unknown = []
+    for r in results:
+        s = r["site"]
+        if s.outer is not None:
+            continue            # decorator wrappers are judged per decorated function below
+        fkey = s.mod.rel + ":" + (s.cls + "." if s.cls else "") + s.fnode.name
+        if fkey not in scope:
+            continue
+        n += 1
+        ign = IGNORE_INPUTS.get((pid or ck.pid, fkey), set())
+        if r["verdict"] == "violation" and ign:
+            left = [m for m in r["missing"] if m not in ign]
+            if not left:
+                ck.info("MEMO-KEY: %s table %s forgets %s - not an input of what %s is about" % (s.construct, s.table, r["missing"], pid or ck.pid))
+                continue
+        if r["verdict"] == "violation":
+            ck.ob("MEMO-KEY", s.construct, False, expected="every input of the cached computation is part of the key (or the table is reset when it changes)",
+                  found={"table": "%s (%s-level)" % (s.table, s.scope), "key": r["key"], "missing": r["missing"], "why": r["why"]},
+                  slot="table:" + s.table, where=s.where(), note="a memo keyed on part of its inputs returns a stale value for some call history")
+        elif r["verdict"] == "ok":
+            ck.ob("MEMO-KEY", s.construct, True, expected="complete key", found={"table": s.table, "key": r["key"]}, slot="table:" + s.table, where=s.where())
+        else:
+            unknown.append("%s table %s keyed on %s (lossy: %s)" % (s.construct, s.table, r["key"], r["lossy"]))
+    for f, dname, wsite in memo.decorated(prog):
+        if f.key not in scope:
+            # outside this property's scope: no verdict here, but a key-complete memoising wrapper is transparent for the normaliser
+            if wsite is not None:
+                d0 = memo.Deps(prog, wsite.mod, wsite.fnode, None, None)
+                keyed0 = {k[6:] for k in d0.of(wsite.key) if k.startswith("param:")}
+                wp0 = [a.arg for a in wsite.fnode.args.args]
+                cov0 = {f.params()[i] for i, p in enumerate(wp0) if p in keyed0 and i < len(f.params())}
+                if not [p for p in f.params()[1:] if p not in cov0]:
+                    from lcsa import sym
+                    sym.DECORATORS_OK.add(f.key)
+            continue
+        n += 1
+        construct = f.mod.relpath + ":" + f.qual
+        if wsite is None:
+            unknown.append("%s is wrapped by @%s, which lcsa cannot summarise" % (construct, dname))
+            continue
+        d = memo.Deps(prog, wsite.mod, wsite.fnode, None, None)
+        keyed = {k[6:] for k in d.of(wsite.key) if k.startswith("param:")}
+        wparams = [a.arg for a in wsite.fnode.args.args]
+        fparams = f.params()
+        # positional correspondence wrapper param i <-> decorated param i
+        covered = {fparams[i] for i, p in enumerate(wparams) if p in keyed and i < len(fparams)}
+        extra = [p for p in fparams[1:] if p not in covered]
+        if not extra:
+            from lcsa import sym
+            sym.DECORATORS_OK.add(f.key)
+        ck.ob("MEMO-KEY", construct, not extra, expected="the memoising decorator @%s keys on every parameter of the function it wraps" % dname,
+              found={"key": unparse_key(wsite), "parameters_not_in_key": extra}, slot="decorator:" + dname, where=f.loc(),
+              note="the first value computed for a key is returned for every later call, whatever the other arguments")
+    ck.count("memo tables / decorators examined", n)
+    _memo_control()
+    ck.count("memo positive control matched")
+    if unknown:
+        from lcsa.model import Undecided
+        raise Undecided("memo with a lossy key or an unknown decorator: " + "; ".join(unknown)[:400])
+
+
+def unparse_key(site):
+    import ast
+    try:
+        return ast.unparse(site.key)
+    except Exception:
+        return "?"
+
+
+_MEMO_CTL = None
+MEMO_CONTROL_SRC = """
+class Sequence:
+    def __init__(self, seq):
+        self.seq = seq
+        self.sites = []
+        self._c = {}
+    def add(self, i):
+        self.sites.append(i)
+    def value(self, pH, flag=False):
+        if pH in self._c:
+            return self._c[pH]
+        t = len(self.seq) * pH + len(self.sites)
+        if flag:
+            t = -t
+        self._c[pH] = t
+        return t
+"""
+
+
+def _memo_control():
+    """the MEMO-KEY rule expects zero hits on a healthy tree: an embedded example (parameter and mutable field missing from
+    the key) must be reported on every run, proving the matcher is alive"""
+    global _MEMO_CTL
+    if _MEMO_CTL is None:
+        import os
+        import shutil
+        import tempfile
+        from lcsa.model import Program, Undecided
+        from lcsa.eff import Effects
+        from lcsa import memo
+        d = tempfile.mkdtemp(prefix="lcsa_ctl_")
+        try:
+            os.makedirs(os.path.join(d, "localcider"))
+            with open(os.path.join(d, "localcider", "ctl.py"), "w") as fh:
+                fh.write(MEMO_CONTROL_SRC)
+            p = Program(d)
+            res = memo.analyse(p, Effects(p))
+            _MEMO_CTL = len(res) == 1 and res[0]["verdict"] == "violation" and "param:flag" in res[0]["missing"] and "self.sites" in res[0]["missing"]
+        finally:
+            shutil.rmtree(d, ignore_errors=True)
+    if not _MEMO_CTL:
+        from lcsa.model import Undecided
+        raise Undecided("memo matcher failed its embedded positive example")
+
+
+# ---------------------------------------------------------------------------------------------- N == len(seq)
+def check_len_invariant(ck, prog, rule="INV-length"):
+    """every formula uses self.len as N: the constructor must leave self.len == len(self.seq) on every path.
+    Strings are tracked by length class: .upper() and plain copies keep the class, anything else (validation strips
+    whitespace) starts a new one."""
+    import ast
+    from lcsa.model import is_self_attr, unparse
+    f = prog.fn(SEQ, "Sequence.__init__")
+    construct = SEQ_PATH + ":Sequence.__init__"
+    results = []
+    for validating in (False, True):
+        cls = {"seq": 0}            # variable/field -> length class
+        nxt = [1]
+        len_cls = [None]
+
+        def klass(node):
+            if isinstance(node, ast.Name) and node.id in cls:
+                return cls[node.id]
+            if is_self_attr(node) and ("self." + node.attr) in cls:
+                return cls["self." + node.attr]
+            if isinstance(node, ast.Call) and isinstance(node.func, ast.Attribute) and node.func.attr in ("upper", "lower") and not node.args:
+                return klass(node.func.value)
+            if isinstance(node, ast.Call) and getattr(node.func, "id", None) == "str" and len(node.args) == 1:
+                return klass(node.args[0])
+            return None
+
+        def walk(stmts):
+            for s in stmts:
+                if isinstance(s, ast.If):
+                    t = unparse(s.test)
+                    if t == "validateSeq":
+                        walk(s.body if validating else s.orelse)
+                    elif t == "not validateSeq":
+                        walk(s.orelse if validating else s.body)
+                    continue
+                if isinstance(s, ast.Assign) and len(s.targets) == 1:
+                    tgt = s.targets[0]
+                    name = tgt.id if isinstance(tgt, ast.Name) else ("self." + tgt.attr if is_self_attr(tgt) else None)
+                    if name in ("seq", "self.seq") or (name and klass(s.value) is not None and isinstance(tgt, ast.Name)):
+                        k = klass(s.value)
+                        if k is None:
+                            k = nxt[0]
+                            nxt[0] += 1
+                        cls[name] = k
+                    elif name == "self.len":
+                        v = s.value
+                        if isinstance(v, ast.Call) and getattr(v.func, "id", None) == "len" and len(v.args) == 1:
+                            len_cls[0] = klass(v.args[0])
+                        else:
+                            len_cls[0] = "not-a-len"
+        walk(f.body())
+        results.append((validating, len_cls[0], cls.get("self.seq")))
+    for validating, lc, sc in results:
+        ck.ob(rule, construct, lc is not None and lc == sc, expected="self.len == len(self.seq) when construction ends",
+              found={"length_class_of_len_argument": lc, "length_class_of_final_self.seq": sc}, slot="validateSeq=%s" % validating, where=f.loc(),
+              note="N in every formula is self.len; validation strips whitespace, so a length taken before it is wrong for such input")
